@@ -39,8 +39,24 @@ package clickhouse_planner
 //@ spec fn intOf(c sql.SQLCondition) int64 = unbox(unbox(c, "*sql.LogicalOp").clauses[1], "*sql.IntVal").val
 //@ spec fn isIntCmp(c sql.SQLCondition) bool = typeis(c, "*sql.LogicalOp") && len(unbox(c, "*sql.LogicalOp").clauses) == 2 && typeis(unbox(c, "*sql.LogicalOp").clauses[1], "*sql.IntVal")
 
-//@ func GetTypes
+// Signal type filter: the requested type (logs when the API asks for "both") or 0 (untyped legacy rows).
+//@ spec fn inInt(c *sql.In, k int) int64 = unbox(c.rightSide[k], "*sql.IntVal").val
+//@ func GetTypes [C13]
 //@   modifies nothing
+//@   ensures fresh(result) && typeis(result.leftSide, "*sql.RawObject") && unbox(result.leftSide, "*sql.RawObject").val == "type"
+//@   ensures len(result.rightSide) == 2 && typeis(result.rightSide[0], "*sql.IntVal") && typeis(result.rightSide[1], "*sql.IntVal")
+//@   ensures inInt(result, 0) == (ctx.Type == 0 ? 1 : ctx.Type) && inInt(result, 1) == 0
+
+// Log and metric sample reads: exactly [From, To) on the sample timestamp, and the signal type.
+//@ func (*SqlMainInitPlanner).Process [C13]
+//@   modifies preWhereArgs
+//@   check window: len(preWhereArgs) == 3 && isIntCmp(preWhereArgs[0]) && isIntCmp(preWhereArgs[1]) &&
+//@         opOf(preWhereArgs[0]) == ">=" && intOf(preWhereArgs[0]) == ctx.From.UnixNano() &&
+//@         opOf(preWhereArgs[1]) == "<" && intOf(preWhereArgs[1]) == ctx.To.UnixNano()
+//@   check column: typeis(unbox(preWhereArgs[0], "*sql.LogicalOp").clauses[0], "*sql.RawObject") &&
+//@         unbox(unbox(preWhereArgs[0], "*sql.LogicalOp").clauses[0], "*sql.RawObject").val == "samples.timestamp_ns" &&
+//@         unbox(unbox(preWhereArgs[1], "*sql.LogicalOp").clauses[0], "*sql.RawObject").val == "samples.timestamp_ns"
+//@   check signal: typeis(preWhereArgs[2], "*sql.In") && inInt(unbox(preWhereArgs[2], "*sql.In"), 0) == (ctx.Type == 0 ? 1 : ctx.Type) && inInt(unbox(preWhereArgs[2], "*sql.In"), 1) == 0
 
 // Rows of metrics_15s carry the start of their 15-second bucket. The read must
 // cover the requested window [From, To): every bucket that intersects it, and
